@@ -351,7 +351,13 @@ func (session *clientSession) runAcknowledger() {
 			} else {
 				clogger.Errorf("received ACK to unknown chunk ID=%s", ackedChunkID)
 				session.metrics.OnError(nil)
-				continue
+
+				// end the session as for a failed ACK read: the chunk we have been waiting for is neither acknowledged
+				// nor going to be, it has to be resent with the rest of pending chunks on a new connection
+				session.abortConn(func() {
+					clogger.Info("abort connection after ACK to unknown chunk to interrupt sending loop")
+				})
+				return
 			}
 		}
 
